@@ -68,8 +68,9 @@ def jobs_schema(tier):
         for sys in (1, 3):  # NPM, Maven
             jobs.append(dict(base, harness="VerifC04SchemaNew", params={"n": n, "alpha": 0, "sys": sys}))
     for n in range(4, (5 if q else 7) + 1):
-        jobs.append(dict(base, harness="VerifC04ParseResolve", params={"n": n, "alpha": 1}))
-        jobs.append(dict(base, harness="VerifC04SchemaNew", params={"n": n, "alpha": 1, "sys": 1}))
+        # the harness's own alphabet loop runs n x |alphabet| times: the unwinding bound grows with n
+        jobs.append(dict(base, unwind=80 + 40 * n, harness="VerifC04ParseResolve", params={"n": n, "alpha": 1}))
+        jobs.append(dict(base, unwind=80 + 40 * n, harness="VerifC04SchemaNew", params={"n": n, "alpha": 1, "sys": 1}))
     # row templates: depth of each row x kind of each row
     import itertools
     rows = 2 if q else 3
